@@ -281,9 +281,14 @@ func c06Positions() []position {
 		"switch":  {"switch vi {\ncase 1:\n", "}\nreturn $D\n"},
 		"default": {"switch vi {\ndefault:\n", "}\nreturn $D\n"},
 		"for-if":  {"for k := 0; k < 1; k++ {\nif vb {\n", "}\n}\nreturn $D\n"},
+		// directly in the function body but not its last statement
+		"early":             {"", "print(1)\nreturn $D\n"},
+		"early-after-stmt":  {"print(0)\n", "print(1)\nreturn $D\n"},
+		"early-after-block": {"if vb {\n}\n", "for k := 0; k < 1; k++ {\n}\nreturn $D\n"},
+		"early-twice":       {"", "return $D\nprint(1)\nreturn $D\n"},
 	}
 	defaults := map[string]string{"int": "0", "bool": "false", "string": `""`, "[]int": "[]int{}"}
-	for _, nest := range []string{"top", "if", "else", "elseif", "for", "switch", "default", "for-if"} {
+	for _, nest := range []string{"top", "if", "else", "elseif", "for", "switch", "default", "for-if", "early", "early-after-stmt", "early-after-block", "early-twice"} {
 		n := nests[nest]
 		for _, rt := range []string{"int", "bool", "string", "[]int"} {
 			t := "func r() " + rt + " {\n" + n[0] + "return $X\n" + strings.ReplaceAll(n[1], "$D", defaults[rt]) + "}\n"
